@@ -1,2 +1,133 @@
-(* C11 - placeholder while the proofs are being built *)
-From MafVerif Require Import lib.Base model.Overlap.
+(* C11 - Overlap iteration partitions its inputs into exact overlap groups.
+   Property theorems only; the specification is spec/SpecOverlap.v, the proofs
+   are in proofs/OverlapFacts.v, OverlapGroups.v, OverlapRefine.v, OverlapOrder.v. *)
+From MafVerif Require Import lib.Base lib.OverlapLib model.Overlap spec.SpecOverlap
+     proofs.OverlapFacts proofs.OverlapGroups proofs.OverlapRefine proofs.OverlapOrder.
+
+(* ---- how a record is seen by the specification under a configuration:
+   class = (barcode pair when grouping by barcodes, chromosome), where the
+   chromosome is its rank in the contig list when one is supplied - in BOTH
+   grouping modes - and its name otherwise *)
+Definition ocls (c : cfg) (r : orec) : ccls := kcls (okeyK c r).
+Definition class_before : ccls -> ccls -> Prop := clt ccls_cmp.
+
+(* the hypotheses of the property *)
+Definition truthy_records (xss : list (list orec)) : Prop :=
+  forall r, In r (concat xss) -> rtruthy r = true.
+Definition contigs_cover (c : cfg) (xss : list (list orec)) : Prop :=
+  forall r, In r (concat xss) -> known_contig c r.
+Definition proper_intervals (xss : list (list orec)) : Prop :=
+  forall r, In r (concat xss) -> wf_interval rstart rend r.
+Definition inputs_sorted (c : cfg) (xss : list (list orec)) : Prop :=
+  Forall (sorted_input (ocls c) rstart rend class_before) xss.
+
+(* C11, main statement: for every number of inputs, every configuration
+   (barcode grouping on/off, contig list present/absent), all inputs sorted by
+   the chosen order, intervals with start <= end:
+   list(LocatableOverlapIterator(inputs, ...)) terminates normally and its
+   groups are an exact grouping (SpecOverlap.exact_grouping): one slot per
+   input; concatenating slot i over the groups gives input i; no group is
+   empty; two records share a group iff they are linked by a chain of
+   closed-interval overlaps within one class; groups ascend in key order. *)
+Theorem C11_exact_grouping :
+  forall (c : cfg) (xss : list (list orec)),
+    truthy_records xss -> contigs_cover c xss -> proper_intervals xss -> inputs_sorted c xss ->
+    exists gs, o_overlap_iter c xss = Done gs /\
+               exact_grouping (ocls c) rstart rend class_before xss gs.
+Proof.
+  intros c xss Ht Hc Hw Hs.
+  exact (overlap_iter_exact rtruthy ccls_cmp ccls_eqb (okey c) ccls_order (okeyK c) xss
+           Ht (fun r H => okey_K c r (Hc r H)) Hw Hs).
+Qed.
+Print Assumptions C11_exact_grouping.
+
+(* a supplied contig order is honoured with and without barcode grouping:
+   whenever the barcodes do not decide (always, without barcode grouping), the
+   classes of two records are ordered / equal as their contig ranks are *)
+Theorem C11_contig_order_honoured_in_both_modes :
+  forall (c : cfg) a b na nb,
+    contigs c <> [] ->
+    index_of (rchr a) (contigs c) = Some na -> index_of (rchr b) (contigs c) = Some nb ->
+    (by_barcodes c = false \/ (rtumor a = rtumor b /\ rnormal a = rnormal b)) ->
+    (class_before (ocls c a) (ocls c b) <-> (na < nb)%nat) /\
+    (ocls c a = ocls c b <-> na = nb).
+Proof. exact contig_rank_decides. Qed.
+Print Assumptions C11_contig_order_honoured_in_both_modes.
+
+(* a chromosome missing from the supplied contig list is reported *)
+Theorem C11_unknown_contig_is_reported :
+  forall (c : cfg) r, contigs c <> [] -> ~ In (rchr r) (contigs c) -> okey c r = Raise ValueError.
+Proof. exact okey_unknown. Qed.
+Print Assumptions C11_unknown_contig_is_reported.
+
+(* an input that is out of order is reported, never silently mis-grouped:
+   a run that ends normally certifies that every input was sorted.  (No
+   hypothesis on the intervals or on sortedness.) *)
+Theorem C11_normal_end_only_on_sorted_inputs :
+  forall (c : cfg) (xss : list (list orec)) gs,
+    truthy_records xss -> contigs_cover c xss ->
+    o_overlap_iter c xss = Done gs -> inputs_sorted c xss.
+Proof.
+  intros c xss gs Ht Hc E.
+  exact (done_implies_sorted rtruthy ccls_cmp ccls_eqb (okey c) ccls_order (okeyK c) xss gs
+           Ht (fun r H => okey_K c r (Hc r H)) E).
+Qed.
+Print Assumptions C11_normal_end_only_on_sorted_inputs.
+
+(* ---------------- non-vacuity ---------------- *)
+Definition R_ (i : Z) (t n chr : N) (s e : Z) : orec :=
+  {| rid := i; rtruthy := true; rtumor := [t]; rnormal := [n]; rchr := [99; 104; 114; chr]%N;
+     rstart := s; rend := e; oref := []; oalts := [] |}.
+(* contigs chr1, chr2, chr9<-"chr:" ... : use the characters '1' '2' ':' so that the
+   supplied order (1, 2, :) differs from nothing lexically but '2' < ':' ; a
+   second list (:, 2, 1) reverses the lexical order *)
+Definition ctg (l : list N) : list str := map (fun x => [99; 104; 114; x]%N) l.
+Definition cfg_rev (bb : bool) : cfg := {| by_barcodes := bb; contigs := ctg [58; 50; 49]%N |}.
+Definition cfg_none (bb : bool) : cfg := {| by_barcodes := bb; contigs := [] |}.
+Definition ids (o : outcome (list (list (list orec)))) : list (list (list Z)) :=
+  match o with Done gs => map (map (map rid)) gs | Exc e => [[[- exn_code e]]] | OutOfFuel => [[[-99]]] end.
+
+(* the docstring example plus touching ends and a chain that extends the running end *)
+Definition demo1 : list (list orec) :=
+  [[R_ 0 84 78 49 1 10; R_ 1 84 78 49 15 15; R_ 2 84 78 49 30 40; R_ 3 84 78 49 45 50];
+   [R_ 4 84 78 49 5 25; R_ 5 84 78 49 40 45; R_ 6 84 78 49 60 60]].
+Example demo1_groups :
+  ids (o_overlap_iter (cfg_none false) demo1) = [[[0; 1]; [4]]; [[2; 3]; [5]]; [[]; [6]]].
+Proof. vm_compute. reflexivity. Qed.
+Example demo1_hypotheses :
+  truthy_records demo1 /\ contigs_cover (cfg_none false) demo1 /\ proper_intervals demo1 /\
+  inputs_sorted (cfg_none false) demo1.
+Proof.
+  split; [|split; [|split]].
+  - intros r Hr. simpl in Hr. repeat (destruct Hr as [<-|Hr]; [reflexivity|]). destruct Hr.
+  - intros r Hr. left. reflexivity.
+  - intros r Hr. simpl in Hr. unfold wf_interval. repeat (destruct Hr as [<-|Hr]; [simpl; lia|]). destruct Hr.
+  - assert (Hle : forall i j s1 e1 s2 e2, s1 < s2 ->
+               key_le (ocls (cfg_none false)) rstart rend class_before
+                      (R_ i 84 78 49 s1 e1) (R_ j 84 78 49 s2 e2)).
+    { intros. left. right. split; [reflexivity|left; assumption]. }
+    unfold inputs_sorted, demo1.
+    apply Forall_cons; [|apply Forall_cons; [|apply Forall_nil]]; simpl;
+      repeat split; try exact I; apply Hle; lia.
+Qed.
+
+(* inputs sorted by a supplied contig order that reverses the name order are
+   grouped in that order, with and without barcode grouping (the configuration
+   that the repaired defect got wrong) *)
+Definition demo2 : list (list orec) :=
+  [[R_ 0 84 78 58 5 6; R_ 1 84 78 49 1 9]; [R_ 2 84 78 50 1 1; R_ 3 84 78 49 9 9]].
+Example demo2_groups_without_barcodes :
+  ids (o_overlap_iter (cfg_rev false) demo2) = [[[0]; []]; [[]; [2]]; [[1]; [3]]].
+Proof. vm_compute. reflexivity. Qed.
+Example demo2_groups_with_barcodes :
+  ids (o_overlap_iter (cfg_rev true) demo2) = [[[0]; []]; [[]; [2]]; [[1]; [3]]].
+Proof. vm_compute. reflexivity. Qed.
+(* the same inputs are out of order when no contig list is given: reported *)
+Example demo2_reported_without_contigs :
+  ids (o_overlap_iter (cfg_none false) demo2) = [[[-9]]].
+Proof. vm_compute. reflexivity. Qed.
+(* an interval with start > end: the real code would return empty groups for
+   ever (outside the property's quantifier; the model runs out of fuel) *)
+Example demo_inverted_interval :
+  ids (o_overlap_iter (cfg_none false) [[R_ 0 84 78 49 5 3]]) = [[[-99]]].
+Proof. vm_compute. reflexivity. Qed.
